@@ -82,7 +82,7 @@ def assignSlots (ch : Chain) (invokeIndex : Nat) : SlotOut :=
       let (st, zi) := acc
       let fm := ch.get i
       let (dm, cnt) := addToVmap st.reg st.dmap st.count fm.downRmap fm.c.inp
-      let (um, cnt) := addToVmap st.reg st.umap cnt fm.upRmap fm.c.ret
+      let (um, cnt) := addToVmap st.reg st.umap cnt [] fm.c.ret
       let st := { st with dmap := dm, umap := um, count := cnt }
       (st, (i, st.umap.map (·.1)) :: zi)) (st1, [])
   { st := st2, zskip := zskip, zinner := zinner }
